@@ -7,7 +7,7 @@ DYADIC_HARNESSES = [
     'known_finding_val_and_exp_64bit',
 ]
 
-SCALAR4_HARNESSES = ['zero_one_tests', 'from_phase_pi4_is_omega_power', 'minus_one_and_one_plus_phase', 'exact_phase_recognition_small']
+SCALAR4_HARNESSES = ['zero_one_tests', 'from_phase_pi4_is_omega_power', 'minus_one_and_one_plus_phase']
 
 PROPS = {
     'C16': {
@@ -33,8 +33,9 @@ PROPS = {
         'kani': [{'unit': 'dyadic', 'file': 'quizx/src/scalar/dyadic.rs',
                   'extra_units': [('scalar4', 'quizx/src/scalar/dyadic.rs')],
                   'harnesses': DYADIC_HARNESSES + SCALAR4_HARNESSES,
-                  'thorough_harnesses': ['add_error_bound', 'exact_phase_recognition'],
-                  'bounded': ['exact_phase_recognition_small'],
+                  # exact_phase_and_sqrt2_pow multiplies by sqrt2 on one path: 6-25 min of CBMC per harness, thorough tier only
+                  'thorough_harnesses': ['add_error_bound', 'exact_phase_recognition', 'exact_phase_recognition_one_coeff', 'exact_phase_recognition_pow2_coeffs'],
+                  'bounded': ['exact_phase_recognition_pow2_coeffs'],
                   'timeout': 7200,
                   'finding_harnesses': {'known_finding_val_and_exp_64bit': 'F8'}}],
         'assumptions': [
@@ -80,6 +81,26 @@ PROPS = {
             '"appending the adjoint gives the identity map" beyond the per-gate inverse table (matrix semantics of H/X-phase mixtures is not modelled)',
             'parity-phase ladder and Toffoli are pinned structurally to the standard recipe, their unitary semantics is the stated textbook fact',
             'Circuit += with different qubit counts is accepted by the code (no check, unlike +): recorded, not a violation of the statement',
+        ],
+    },
+    'C17': {
+        'level': 'proof',
+        'level_text': 'machine-checked contracts (Verus) on the extracted real text of linalg.rs: row/column operations have their exact effect; gauss_helper (hence gauss, gauss_x, rank) returns, for every block size >= 1 and both reduction modes, an echelon (fully reduced echelon) form with `rank` pivots in the reported strictly increasing columns and all other rows zero, reached from the input by additions of one row to a different row, and the proxy receives exactly the same sequence; inverse returns Some(inv) only with inv * self = I and None only for a non-square matrix or one whose reduced form has a zero row; panic-freedom of every index and subtraction; unbounded in the matrix size',
+        'level_note': 'assumed: FxHashMap get/insert ("get returns a previously inserted value"), slice::to_vec, cmp::min, slice::swap, derived Clone, Mat2::id (built by closures + collect); textbook: row additions preserve the row space, echelon pivots = rank, a left inverse of a square matrix is two-sided; entries are 0/1 (precondition)',
+        'technique': 'Verus contracts with loop invariants and a ghost row-operation log on mechanically extracted functions of linalg.rs',
+        'verus': ['linalg'],
+        'assumptions': [
+            'FxHashMap<Vec<u8>, usize>: `get` returns only values inserted earlier (stub ChunkMap); which key a row was filed under is irrelevant to the proof',
+            '`ch.iter().all(|&x| x == 0)` is replaced by a function with an unspecified boolean result (the proof holds for either answer)',
+            'slice::to_vec copies, std::cmp::min is the minimum, slice::swap swaps, #[derive(Clone)] is structural, Mat2::id(n) is the n x n identity (Mat2::build uses closures + iterator collect, whose results Verus leaves unspecified)',
+            'matrix entries are 0 or 1 (bits(m)) and all rows have equal length (rect(m)): preconditions — Mat2::new does not enforce either',
+            'textbook facts: adding one row to a different row is invertible and preserves the row space; an echelon form with k pivots has rank k; a left inverse of a square matrix over a field is a two-sided inverse',
+        ],
+        'supported_range': ['blocksize >= 1 (blocksize 0 divides by zero in the code: precondition)', 'cols + blocksize <= usize::MAX', 'pivot_cols passed empty (all callers pass vec![])'],
+        'not_covered': [
+            'nullspace (peekable / enumerate().rev() iterator pipelines are outside the Verus subset; Kani cannot hold a 2x2 elimination)',
+            'transpose, Mul, build/zeros/ones/id/unit_vector (closures + collect: results unspecified in Verus), vstack/hstack (assert_eq! formatting, Vec::extend), weight/row_weight/unit_rows (iterator sums)',
+            'the algebraic laws of transpose / stacking / multiplication',
         ],
     },
 }
